@@ -48,6 +48,13 @@ def gen_cases(tier, seed):
                             "out": extra.pop("force_out", None) or r.choice(["sinks", "node", "node", "struct", "none"])}})
     for i in range(2 if tier == "quick" else 10):
         out.append({"seed": env.seed_for(seed, ID, tier, "many_failures", i), "mode": "many_failures", "n": 150, "W": 1, "sched": "default"})
+    # several consumers of one result finish at the same time; the worker of the first is held at every instruction of its release bookkeeping
+    # (run_physical and the graph runner) while the others complete (vmon/preempt.py): "whatever the worker count or scheduler"
+    combos = [(nc, W, sc, tw) for nc in (2, 3) for W in (nc, nc + 2) for sc in ("default", "random") for tw in (False, True)]
+    if tier == "quick":
+        combos = [c_ for j, c_ in enumerate(combos) if j % 4 == seed % 4]
+    for nc, W, sc, tw in combos:
+        out.append({"seed": env.seed_for(seed, ID, tier, "release", nc, W, sc, tw), "mode": "preempt_release", "consumers": nc, "W": W, "sched": sc, "twice": tw, "n": nc + 2})
     return out
 
 
@@ -193,6 +200,10 @@ def run_case(desc):
         return run_registry(desc)
     if desc["mode"] == "many_failures":
         return run_many_failures(desc)
+    if desc["mode"] == "preempt_release":
+        from vmon import preempt
+
+        return preempt.enumerate_release(desc)
     rng = random.Random(desc["seed"])
     ir = irmod.gen_ir(rng, desc["n"], family=desc["family"], rich=True, cfg=desc["cfg"])
     for n in ir.nodes:
@@ -409,6 +420,8 @@ def finalize(agg, tier):
     reasons = []
     if c["results_checked_before_end"] < 500:
         reasons.append("fewer than 500 results with finished consumers were checked before the end of their run")
+    if c["preempt_release_holds_others_completed"] < 100:
+        reasons.append("release preemption: fewer than 100 holds during which the other consumers completed")
     for m in ("mode_w1", "mode_anc", "mode_wave", "mode_registry", "mode_failb", "mode_obs", "mode_fail2", "mode_retry"):
         if c[m] < 20:
             reasons.append(f"too few {m} cases")
